@@ -2,6 +2,7 @@ package cachesim
 
 import (
 	"fmt"
+	"os"
 	"time"
 )
 
@@ -128,4 +129,19 @@ func (e *Engine) Digest(res *RunResult) string {
 		vs += v.Prop + "/" + v.Rule + ";"
 	}
 	return fmt.Sprintf("fp=%x tape=%x/%d ev=%x/%d steps=%d abort=%q viol=%s", res.FP, th, len(res.Tape), h, total, res.Steps, res.Abort, vs)
+}
+
+// DumpEvents writes the raw event log (debugging aid of the determinism
+// self-test).
+func (e *Engine) DumpEvents(path string) {
+	var b []byte
+	total := int(e.nevs)
+	if total > maxEvs {
+		total = maxEvs
+	}
+	for i := 0; i < total; i++ {
+		ev := &e.evs[i]
+		b = fmt.Appendf(b, "%d t=%d k=%d op=%d task=%d key=%d val=%d a=%d b=%d ok=%v h=%x\n", ev.Seq, ev.T, ev.Kind, ev.Op, ev.Task, ev.Key, ev.Val, ev.A, ev.B, ev.OK, ev.H)
+	}
+	os.WriteFile(path, b, 0o644)
 }
